@@ -21,7 +21,7 @@ import (
 )
 
 var ops = []string{"Login", "NewProxy", "Ping", "NewWorkConn", "NewUserConn", "CloseProxy"}
-var outcomes = []string{"accept", "modify", "reject", "http500", "reset", "badjson", "empty"}
+var outcomes = []string{"accept", "modify", "reject", "http500", "reset", "badjson", "empty", "trailing", "twodocs", "shortbody"}
 var subsets = []string{"none", "this", "all"}
 
 type pluginSpec struct {
@@ -109,6 +109,17 @@ func (s *stub) ServeHTTP(w http.ResponseWriter, r *http.Request) {
 	case "badjson":
 		io.WriteString(w, `{"reject":false,"unchange":tr`)
 	case "empty":
+	case "trailing": // a complete accepting object followed by bytes that make the body unparsable
+		io.WriteString(w, `{"reject":false,"unchange":true}}<html>proxy error</html>`)
+	case "twodocs":
+		io.WriteString(w, `{"reject":false,"unchange":true}{"reject":true,"reject_reason":"second document"}`)
+	case "shortbody": // the announced length is never delivered: the body cannot be read to its end
+		if hj, ok := w.(http.Hijacker); ok {
+			c, bw, _ := hj.Hijack()
+			bw.WriteString("HTTP/1.1 200 OK\r\nContent-Type: application/json\r\nContent-Length: 200\r\n\r\n" + `{"reject":false,"unchange":true}`)
+			bw.Flush()
+			c.Close()
+		}
 	}
 }
 
